@@ -5,7 +5,8 @@ import ast
 
 from ..core import (AnalysisError, dotted, unparse, calls_in, call_name,
                     walk_no_defs, parent, ancestors, ClassInfo, FuncInfo)
-from ..flow import guards_at, flatten_guards, SeqFlow, RETURN
+from ..flow import (guards_at, flatten_guards, SeqFlow, RETURN,
+                    always_exits)
 from .. import guardspec
 from ..tables import tables_of, cdict_lookup
 from ..mutate import Mutant, in_func
@@ -766,6 +767,78 @@ def rule_r20(prog, res):
               c18.rule_r7, prog, Result)
 
 
+# ------------------------------------------------------------------ R21
+def _definitely_assigns(stmts, name):
+    for st in stmts:
+        if isinstance(st, ast.Assign) and any(
+                isinstance(t, ast.Name) and t.id == name or isinstance(
+                    t, ast.Tuple) and any(isinstance(e, ast.Name) and
+                                          e.id == name for e in t.elts)
+                for t in st.targets):
+            return True
+        if isinstance(st, ast.If) and st.orelse and _definitely_assigns(
+                st.body, name) and _definitely_assigns(st.orelse, name):
+            return True
+        if isinstance(st, ast.Try) and _definitely_assigns(st.body, name) \
+                and all(_definitely_assigns(hd.body, name) or always_exits(
+                    hd.body) for hd in st.handlers):
+            return True
+    return False
+
+
+def rule_r21(prog, res):
+    res.rule('R21', 'per-member values of the XML member loops are computed '
+             'afresh for every member: a local that a loop over _type_info '
+             'sets from the member only under a condition is also set on the '
+             'other branch in the same iteration (no namespace, name or '
+             'attribute of one member is carried over to the members after '
+             'it)')
+    m = prog.module('spyne.protocol.xml')
+    n = 0
+    for f in [x for x in ast.walk(m.tree) if isinstance(x, ast.FunctionDef)]:
+        for lp in [x for x in walk_no_defs(f) if isinstance(x, ast.For)]:
+            if '_type_info' not in unparse(lp.iter):
+                continue
+            tv = {x.id for x in ast.walk(lp.target)
+                  if isinstance(x, ast.Name)}
+            cond = {}
+            for st in lp.body:
+                for a in ast.walk(st):
+                    if isinstance(a, ast.Assign) and a not in lp.body:
+                        for t in a.targets:
+                            if isinstance(t, ast.Name) and any(
+                                    isinstance(y, ast.Name) and y.id in tv
+                                    for y in ast.walk(a.value)):
+                                cond.setdefault(t.id, a)
+            for name, a in sorted(cond.items()):
+                if name in tv:
+                    continue
+                n += 1
+                ok = _definitely_assigns(lp.body, name)
+                if not ok:
+                    # a value only ever bound inside the loop and never read
+                    # before its own binding in the iteration is local to the
+                    # branch: accept when every read is inside the same
+                    # conditional statement as a binding
+                    top = [st for st in lp.body if any(
+                        isinstance(y, ast.Name) and y.id == name
+                        for y in ast.walk(st))]
+                    ok = len(top) == 1
+                where = '%s:%d' % (m.relpath, a.lineno)
+                res.ob('R21', where, '%s: %s is bound on every path of one '
+                       'iteration over %s' % (f.name, name,
+                                              unparse(lp.iter)[:40]),
+                       'ok' if ok else 'VIOLATED')
+                if not ok:
+                    res.finding('R21', '%s|carried-over|%s' % (f.name, name),
+                                where, '%s is set from the member only under '
+                                'a condition and otherwise keeps the value '
+                                'of an earlier member: the element after a '
+                                'member with its own %s is written with that '
+                                'member\'s value' % (name, name))
+    res.floor('R21', 'conditionally bound per-member locals', n, 1)
+
+
 def run(prog, res, tier):
     res.run_rule(rule_shared2, prog, res)
     res.run_rule(rule_r1, prog, res)
@@ -785,6 +858,7 @@ def run(prog, res, tier):
     res.run_rule(rule_r18, prog, res)
     res.run_rule(rule_r19, prog, res)
     res.run_rule(rule_r20, prog, res)
+    res.run_rule(rule_r21, prog, res)
 
 
 _X = 'spyne/protocol/xml.py'
@@ -792,6 +866,14 @@ _S = 'spyne/protocol/soap/soap11.py'
 _A = 'spyne/application.py'
 
 MUTANTS = [
+    Mutant('member-namespace-hoisted', 'R21', 'fire', 'spyne/protocol/xml.py',
+           in_func('XmlDocument._get_members_etree',
+                   "                sub_ns = v.Attributes.sub_ns\n"
+                   "                if sub_ns is None:\n"
+                   "                    sub_ns = cls.get_namespace()\n",
+                   "                if v.Attributes.sub_ns is not None:\n"
+                   "                    sub_ns = v.Attributes.sub_ns\n"),
+           'carried-over'),
     Mutant('xml-root-in-message-namespace', 'R19', 'fire',
            'spyne/protocol/xml.py',
            in_func('XmlDocument.serialize',
